@@ -220,7 +220,7 @@ prop('C03', 'loads are linearizable (provenance clause)',
      'Linearizability, real-time order and per-thread monotonicity over histories are NOT decided (properties of executions).')
 
 prop('C04', 'writes totally ordered, each old value handed back once',
-     [O.rule_rmw_only, A.rule_store_is_swap, L.rule_ledger, L.rule_bypass, R.rule_pay_before_release, A.rule_cas_shape],
+     [O.rule_rmw_only, A.rule_store_is_swap, A.rule_swap_shape, L.rule_ledger, L.rule_bypass, R.rule_pay_before_release, A.rule_cas_shape],
      'Decides: the container is exactly one atomic variable and every mutation is a single RMW on it, so the write order is '
      'that variable\'s modification order (RMW-ONLY); store = drop(swap) (STORE-IS-SWAP); one count leaves the cell per '
      'successful write and per destruction on every path (LEDGER for swap / compare_and_swap / into_inner / Drop), into_inner '
@@ -246,7 +246,8 @@ prop('C06', 'rcu is an atomic read-modify-write',
      'The composition law numerically (k increments add k) is a consequence of the shape plus C05, not separately computed.')
 
 prop('C14', 'all strategies implement one sequential specification (structural clause)',
-     [A.rule_api_agnostic, A.rule_lock_span, L.rule_ledger, R.rule_intent_first, R.rule_publish_confirm],
+     [A.rule_api_agnostic, A.rule_lock_span, L.rule_ledger, R.rule_intent_first, R.rule_publish_confirm, O.rule_pay_cas, R.rule_pay_used,
+      R.rule_slot_closed, R.rule_claim_empty, R.rule_cover_all],
      'Decides only the structural clause: the public layer cannot distinguish strategies (API-AGNOSTIC), USE_FAST is read only '
      'as the attempt/fallback selector, Protected for T is the identity, the lock-based reference strategy holds its lock '
      'across read+inc / exchange (LOCK-SPAN), the count ledger of load / wait_for_readers / compare_and_swap is balanced for '
@@ -315,7 +316,7 @@ prop('C19', 'thread-safety markers follow the pointee',
      technique='static analysis: generated type-level witness crate decided by rustc trait solver (const assertions per cell) + impl enumeration over MIR facts + compile-fail witnesses with compiling twins')
 
 prop('C10', 'guards are self-contained snapshots',
-     [TL.rule_witnesses, P.rule_never_freed, R.rule_claim_empty, O.rule_inuse_fsm, R.rule_slot_closed, A.rule_access_shape,
+     [TL.rule_witnesses, A.rule_guard_fields, P.rule_never_freed, R.rule_claim_empty, O.rule_inuse_fsm, R.rule_slot_closed, A.rule_access_shape,
       L.rule_ledger, _inc_protected, R.rule_cover_all, T.rule_cooldown_owned],
      'Decides: a Guard / full value / Arc-backed cache carries no borrow of the container and is \'static + Send when the '
      'pointer is (compile-pass witnesses; the borrow-checker twins show that reference-backed maps and caches cannot outlive '
